@@ -26,9 +26,21 @@ type World struct {
 }
 
 type DT struct {
-	Name   string
-	Fields []DTField
-	GoType types.Type // may be nil for ghost structs
+	Name    string
+	Fields  []DTField
+	GoType  types.Type  // may be nil for ghost structs
+	goIndex map[int]int // Go field index -> datatype field index (library structs keep exported fields only)
+}
+
+// GoField maps a Go struct field index to the datatype field index (-1: not modelled).
+func (d *DT) GoField(i int) int {
+	if d.goIndex == nil {
+		return i
+	}
+	if k, ok := d.goIndex[i]; ok {
+		return k
+	}
+	return -1
 }
 
 type DTField struct {
@@ -104,9 +116,6 @@ func (w *World) SortOf(t types.Type) string {
 			return w.dtFor(u).Name
 		}
 		if _, ok := u.Underlying().(*types.Struct); ok {
-			if isOpaqueStruct(u) {
-				return SInt
-			}
 			return w.dtFor(u).Name
 		}
 		return w.SortOf(u.Underlying())
@@ -182,9 +191,22 @@ func (w *World) dtFor(t types.Type) *DT {
 		}
 	}
 	st := t.Underlying().(*types.Struct)
+	opaque := isOpaqueStruct(t)
+	if opaque {
+		d.goIndex = map[int]int{}
+	}
 	for i := 0; i < st.NumFields(); i++ {
 		f := st.Field(i)
+		if opaque {
+			if !f.Exported() {
+				continue
+			}
+			d.goIndex[i] = len(d.Fields)
+		}
 		d.Fields = append(d.Fields, DTField{Name: f.Name(), Sort: w.SortOf(f.Type()), Type: f.Type()})
+	}
+	if opaque {
+		d.Fields = append(d.Fields, DTField{Name: "abs__", Sort: SInt})
 	}
 	if len(d.Fields) == 0 {
 		d.Fields = append(d.Fields, DTField{Name: "unit__", Sort: SInt})
